@@ -9,6 +9,7 @@ variable {F : Type} [Scalar F]
 
 theorem reset_eq (s : KeltnerChannel F) (h : WF s) : s.reset = some (fresh s.period s.multiplier) := by
   unfold reset
+  try simp only [gen_helper]
   simp [AverageTrueRange.reset_eq _ h.atr, ExponentialMovingAverage.reset_eq _ h.ema, fresh,
     AverageTrueRange.period_fn_eq, h.ema_period, h.atr_period]
 
